@@ -411,11 +411,9 @@ func (c *Client) recv(keepaliveQuit chan<- struct{}) {
 				Space: stanza.NSStreamManagement,
 				Local: "a",
 			}, H: c.Session.SMState.Inbound}
-			err = c.Send(answer)
-			if err != nil {
-				c.ErrorHandler(err)
-				return
-			}
+			// If the answer cannot be written the connection is lost. That is reported - once - when
+			// the next read fails; keep reading so that what was already received is still routed.
+			_ = c.Send(answer)
 		case stanza.StreamClosePacket:
 			// TCP messages should arrive in order, so we can expect to get nothing more after this occurs
 			c.transport.ReceivedStreamClose()
